@@ -6,6 +6,8 @@ Definition check_prop (p : Z) (inp obs : V) : verdict :=
   match p with
   | 13%Z => check_secure inp obs
   | 6%Z => check_muxtimed gen_mux_params inp obs
+  | 7%Z => check_grpctimed gen_grpc_params inp obs
+  | 8%Z => check_grpctimed gen_grpc_params inp obs
   | 11%Z => check_stdio stdio_chunk inp obs
   | 111%Z => check_copychan stdio_chunk inp obs
   | 17%Z => check_env gen_env_params inp obs
